@@ -311,3 +311,117 @@ func TestW2Registry(t *testing.T) {
 
 var _ = peer.FromContext
 var _ = rand.Intn
+
+// ---- C17: identity of tunnel, peer and opening metadata (forward, several tunnels, nested) ----
+
+type taggedStream struct {
+	grpc.ServerStream
+	ctx context.Context
+}
+
+func (t *taggedStream) Context() context.Context { return t.ctx }
+
+func identityDesc(name string) *grpc.ServiceDesc {
+	h := func(_ any, ctx context.Context, dec func(any) error, _ grpc.UnaryServerInterceptor) (any, error) {
+		var m wrapperspb.StringValue
+		if err := dec(&m); err != nil {
+			return nil, err
+		}
+		tag, _ := ctx.Value(ctxTagKey{}).(string)
+		_, hasPeer := peer.FromContext(ctx)
+		tmd, ok := grpctunnel.TunnelMetadataFromIncomingContext(ctx)
+		tmd.Set("mutated", "yes")
+		tmd2, _ := grpctunnel.TunnelMetadataFromIncomingContext(ctx)
+		rmd, _ := metadata.FromIncomingContext(ctx)
+		return &wrapperspb.StringValue{Value: fmt.Sprintf("svc=%s tag=%s peer=%v tmdok=%v open=%s mut=%d x=%s", name, tag, hasPeer, ok,
+			strings.Join(tmd.Get("open"), ","), len(tmd2.Get("mutated")), strings.Join(rmd.Get("x"), ","))}, nil
+	}
+	return &grpc.ServiceDesc{ServiceName: "v.I", HandlerType: (*any)(nil), Methods: []grpc.MethodDesc{{MethodName: "Who", Handler: h}},
+		Streams: []grpc.StreamDesc{{StreamName: "S", ClientStreams: true, ServerStreams: true, Handler: func(_ any, st grpc.ServerStream) error {
+			var m wrapperspb.StringValue
+			_ = st.RecvMsg(&m)
+			return nil
+		}}}}
+}
+
+func TestW2Identity(t *testing.T) {
+	ops := newOps(t, "identity")
+	defer ops.close()
+	n := envInt("VERIF_N", 20)
+	for i := 0; i < n; i++ {
+		synctest.Test(t, func(t *testing.T) {
+			lis := bufconn.Listen(1 << 20)
+			handler := grpctunnel.NewTunnelServiceHandler(grpctunnel.TunnelServiceHandlerOptions{})
+			handler.RegisterService(identityDesc("outer"), struct{}{})
+			// a nested tunnel service reachable THROUGH a tunnel
+			inner := grpctunnel.NewTunnelServiceHandler(grpctunnel.TunnelServiceHandlerOptions{})
+			inner.RegisterService(identityDesc("inner"), struct{}{})
+			tunnelpb.RegisterTunnelServiceServer(handler, inner.Service())
+			gs := grpc.NewServer(grpc.StreamInterceptor(func(srv any, ss grpc.ServerStream, _ *grpc.StreamServerInfo, h grpc.StreamHandler) error {
+				return h(srv, &taggedStream{ServerStream: ss, ctx: context.WithValue(ss.Context(), ctxTagKey{}, "planted")})
+			}))
+			tunnelpb.RegisterTunnelServiceServer(gs, handler.Service())
+			go func() { _ = gs.Serve(lis) }()
+			cc, err := grpc.NewClient("passthrough:///bufnet",
+				grpc.WithContextDialer(func(ctx context.Context, _ string) (net.Conn, error) { return lis.DialContext(ctx) }),
+				grpc.WithTransportCredentials(insecure.NewCredentials()))
+			if err != nil {
+				t.Fatal(err)
+			}
+			defer func() { cc.Close(); gs.Stop(); synctest.Wait() }()
+			stub := tunnelpb.NewTunnelServiceClient(cc)
+			ops.add("id.init", "ok")
+			open := func(stub tunnelpb.TunnelServiceClient, name string) (grpctunnel.TunnelChannel, context.CancelFunc) {
+				ctx, cancel := context.WithCancel(metadata.AppendToOutgoingContext(context.Background(), "open", name))
+				ch, err := grpctunnel.NewChannel(stub).Start(ctx)
+				if err != nil {
+					t.Fatalf("start %s: %v", name, err)
+				}
+				return ch, cancel
+			}
+			ch1, c1 := open(stub, "fwd1")
+			ch2, c2 := open(stub, "fwd2")
+			nested, c3 := open(tunnelpb.NewTunnelServiceClient(ch1), "nested")
+			defer func() { c3(); c2(); c1() }()
+			check := func(label string, ch grpctunnel.TunnelChannel, wantOpen, wantSvc string) {
+				var resp wrapperspb.StringValue
+				ctx, cancel := context.WithTimeout(metadata.AppendToOutgoingContext(context.Background(), "x", label), 5*time.Second)
+				defer cancel()
+				var used grpctunnel.TunnelChannel
+				err := ch.Invoke(ctx, "/v.I/Who", &wrapperspb.StringValue{Value: "q"}, &resp, grpctunnel.WithTunnelChannel(&used))
+				res := "ok"
+				want := fmt.Sprintf("svc=%s tag=planted peer=true tmdok=true open=%s mut=0 x=%s", wantSvc, wantOpen, label)
+				if err != nil {
+					res = "BAD:rpc:" + fmtStatus(err)
+				} else if resp.Value != want {
+					res = "BAD:handler-saw(" + strings.ReplaceAll(resp.Value, " ", "_") + ")"
+				} else if used != ch {
+					res = "BAD:WithTunnelChannel-reported-another-channel"
+				}
+				// caller-side accessors on a stream's context
+				str, err := ch.NewStream(ctx, &grpc.StreamDesc{ClientStreams: true, ServerStreams: true}, "/v.I/S")
+				if err == nil {
+					if grpctunnel.TunnelChannelFromContext(str.Context()) != ch {
+						res += "+BAD:TunnelChannelFromContext"
+					}
+					omd, ok := grpctunnel.TunnelMetadataFromOutgoingContext(str.Context())
+					if !ok || strings.Join(omd.Get("open"), ",") != wantOpen {
+						res += "+BAD:TunnelMetadataFromOutgoingContext(" + strings.Join(omd.Get("open"), ",") + ")"
+					}
+					omd.Set("open", "tampered")
+					omd2, _ := grpctunnel.TunnelMetadataFromOutgoingContext(str.Context())
+					if strings.Join(omd2.Get("open"), ",") != wantOpen {
+						res += "+BAD:outgoing-metadata-copy-shared"
+					}
+					_ = str.CloseSend()
+				}
+				ops.add("id.case "+label, res)
+			}
+			for round := 0; round < 3; round++ {
+				check(fmt.Sprintf("a%d", round), ch1, "fwd1", "outer")
+				check(fmt.Sprintf("b%d", round), ch2, "fwd2", "outer")
+				check(fmt.Sprintf("n%d", round), nested, "nested", "inner")
+			}
+		})
+	}
+}
